@@ -439,6 +439,10 @@ pub mod mpsc {
         /// A4: a WeakSender does not count as a sender
         #[verifier::external_body]
         pub fn downgrade(&self) -> (r: WeakSender<T>) ensures r.chan() == self.chan() { unimplemented!() }
+        #[verifier::external_body]
+        pub fn capacity(&self) -> usize { unimplemented!() }
+        #[verifier::external_body]
+        pub fn max_capacity(&self) -> (r: usize) ensures r as nat == self.cap() { unimplemented!() }
     }
     impl<T> Clone for Sender<T> {
         #[verifier::external_body]
@@ -491,6 +495,15 @@ pub mod mpsc {
         { unimplemented!() }
     }
     impl<T> Receiver<T> {
+        /// racy reads of the queue state: any value (another task may change it at once)
+        #[verifier::external_body]
+        pub fn is_empty(&self) -> bool { unimplemented!() }
+        #[verifier::external_body]
+        pub fn len(&self) -> usize { unimplemented!() }
+        #[verifier::external_body]
+        pub fn capacity(&self) -> usize { unimplemented!() }
+        #[verifier::external_body]
+        pub fn max_capacity(&self) -> usize { unimplemented!() }
         /// A5: after close, pending and later sends fail; queued messages can still be drained
         #[verifier::external_body]
         pub fn close(&mut self, w: &mut World)
@@ -877,3 +890,26 @@ pub assume_specification[ Duration::from_millis ](n: u64) -> (r: Duration)
     ensures dur_nanos(r) == n as nat * 1_000_000;
 pub assume_specification[ Duration::from_micros ](n: u64) -> (r: Duration)
     ensures dur_nanos(r) == n as nat * 1_000;
+
+// ---------------------------------------------------------------- panics must propagate (A6, A7)
+/// The hook contracts above assume that a panicking hook unwinds out of the function that called it (and the task ends with a
+/// panic JoinError).  Catching the unwind inside framework code breaks that assumption: not allowed by contract.
+pub struct AssertUnwindSafe<F>(pub F);
+pub struct PanicPayload;
+pub trait VxCatchUnwind: Sized {
+    type Out;
+    fn catch_unwind(self) -> (r: core::result::Result<Self::Out, PanicPayload>)
+        requires
+            false, /*L:framework.hook_panics_must_propagate*/
+    ;
+}
+impl<F> VxCatchUnwind for AssertUnwindSafe<F> {
+    type Out = F;
+    #[verifier::external_body]
+    fn catch_unwind(self) -> (r: core::result::Result<F, PanicPayload>) { unimplemented!() }
+}
+#[verifier::external_body]
+pub fn catch_unwind<F>(f: F) -> (r: core::result::Result<F, PanicPayload>)
+    requires
+        false, /*L:framework.hook_panics_must_propagate*/
+{ unimplemented!() }
